@@ -2,4 +2,285 @@
 From PM Require Import Lib.Bytes Lib.BytesFacts Lib.PyStr Lib.PyStrFacts Lib.PyStrFacts2 Http.Url Http.Chunk Http.ChunkFacts
   Http.Parser Http.ParserFacts Http.Builders Http.BuildersFacts Http.Grammar Http.CodecFacts Http.UrlSpec Http.Upstream Http.UrlFacts
   Net.Forward.
+From PM Require Net.Auth.
 From Coq Require Import ZArith Lia.
+
+(* ===================================================================================== *)
+(* A. the header dictionary seen as the list of fields it stores                           *)
+
+Notation U p := (unopt (headers p)).
+
+Lemma hdr_inv_lift h : hdr_inv h -> unopt h = map lift1 (map snd (unopt h)) /\ NoDup (lkeys (map snd (unopt h))).
+Proof.
+  intros [Hn Hf]. set (d := unopt h) in *. clearbody d. split.
+  - induction d as [|[k [o v]] t IH]; [reflexivity|]. inversion Hf as [|? ? E Hf']; subst. inversion Hn; subst.
+    cbn [fst snd] in E. subst k. cbn [map snd]. unfold lift1 at 1. cbn [fst snd]. f_equal. now apply IH.
+  - replace (lkeys (map snd d)) with (dict_keys d); [exact Hn|].
+    unfold lkeys, dict_keys. rewrite map_map. apply map_ext_in. intros e He.
+    rewrite Forall_forall in Hf. now apply Hf.
+Qed.
+
+Lemma lift_hdr_inv h hs : unopt h = map lift1 hs -> NoDup (lkeys hs) -> hdr_inv h.
+Proof.
+  intros E Hn. unfold hdr_inv. rewrite E. split.
+  - unfold dict_keys. rewrite map_map. exact Hn.
+  - apply Forall_forall. intros e He. apply in_map_iff in He as (kv & <- & _). reflexivity.
+Qed.
+
+Lemma view_lift hs : map snd (map lift1 hs) = hs.
+Proof. rewrite map_map. rewrite <- (map_id hs) at 2. apply map_ext. intros [k v]. reflexivity. Qed.
+
+(* ---- filter / set_field on field lists ---- *)
+Definition keep_not (ln : bytes) (nv : bytes * bytes) : bool := negb (bytes_eqb (lower (fst nv)) ln).
+
+Lemma lkeys_filter_subset f hs x : In x (lkeys (filter f hs)) -> In x (lkeys hs).
+Proof.
+  unfold lkeys. rewrite !in_map_iff. intros (kv & E & Hi). apply filter_In in Hi as [Hi _]. exists kv. now split.
+Qed.
+
+Lemma NoDup_lkeys_filter f hs : NoDup (lkeys hs) -> NoDup (lkeys (filter f hs)).
+Proof.
+  induction hs as [|kv t IH]; intros H; [constructor|]. cbn [filter]. cbn [lkeys map] in H. inversion H; subst.
+  destruct (f kv); [|now apply IH]. cbn [lkeys map]. constructor; [|now apply IH].
+  intros C. apply lkeys_filter_subset in C. contradiction.
+Qed.
+
+Lemma filter_keep_all ln hs : ~ In ln (lkeys hs) -> filter (keep_not ln) hs = hs.
+Proof.
+  induction hs as [|[k v] t IH]; intros H; [reflexivity|]. cbn [filter]. unfold keep_not at 1. cbn [fst]. cbn [lkeys map fst In] in H.
+  destruct (bytes_eqb_spec (lower k) ln) as [E|E]; [exfalso; apply H; now left|]. cbn [negb].
+  rewrite IH; [reflexivity|]. intros C. apply H. now right.
+Qed.
+
+(* del self.headers[k]: the (only) field of that name disappears *)
+Lemma dict_del_lift ln hs : NoDup (lkeys hs) ->
+  dict_del ln (map lift1 hs) = map lift1 (filter (keep_not ln) hs).
+Proof.
+  induction hs as [|[k v] t IH]; intros H; [reflexivity|]. cbn [lkeys map fst] in H. inversion H as [|? ? Hn Hd]; subst.
+  cbn [map dict_del filter]. unfold lift1 at 1, keep_not at 1. cbn [fst snd].
+  destruct (bytes_eqb_spec ln (lower k)) as [E|E]; destruct (bytes_eqb_spec (lower k) ln) as [E'|E']; try congruence; cbn [negb].
+  - subst ln. rewrite filter_keep_all; [reflexivity|exact Hn].
+  - cbn [map lift1 fst snd]. f_equal. now apply IH.
+Qed.
+
+Lemma lkeys_set_field name v hs :
+  lkeys (set_field name v hs) = if has_key_ci (lower name) hs then lkeys hs else lkeys hs ++ [lower name].
+Proof.
+  induction hs as [|[k v'] t IH]; cbn [set_field lkeys map fst has_key_ci existsb]; [reflexivity|].
+  destruct (bytes_eqb_spec (lower k) (lower name)) as [E|E]; cbn [orb map fst lkeys].
+  - now rewrite E.
+  - fold (lkeys (set_field name v t)). rewrite IH. fold (has_key_ci (lower name) t).
+    destruct (has_key_ci (lower name) t); reflexivity.
+Qed.
+
+Lemma NoDup_lkeys_set_field name v hs : NoDup (lkeys hs) -> NoDup (lkeys (set_field name v hs)).
+Proof.
+  intros H. rewrite lkeys_set_field. destruct (has_key_ci (lower name) hs) eqn:E; [exact H|].
+  apply NoDup_snoc; [exact H|]. now apply has_key_ci_false.
+Qed.
+
+(* self.headers[name.lower()] = (name, v) *)
+Lemma dict_set_lift name v hs :
+  dict_set (lower name) (name, v) (map lift1 hs) = map lift1 (set_field name v hs).
+Proof.
+  induction hs as [|[k v'] t IH]; [reflexivity|]. cbn [map lift1 fst snd dict_set set_field].
+  destruct (bytes_eqb_spec (lower name) (lower k)) as [E|E]; destruct (bytes_eqb_spec (lower k) (lower name)) as [E'|E'];
+    try congruence; cbn [map lift1 fst snd]; [reflexivity|]. f_equal. exact IH.
+Qed.
+
+Lemma dict_get_lift ln hs :
+  dict_get ln (map lift1 hs) =
+  match find (fun kv => bytes_eqb (lower (fst kv)) ln) hs with Some kv => Some kv | None => None end.
+Proof.
+  induction hs as [|[k v] t IH]; [reflexivity|]. cbn [map lift1 fst snd dict_get find].
+  destruct (bytes_eqb_spec ln (lower k)) as [E|E]; destruct (bytes_eqb_spec (lower k) ln) as [E'|E']; try congruence.
+  exact IH.
+Qed.
+
+(* ---- the parser methods in terms of the field list ---- *)
+Lemma has_header_view p hs key : U p = map lift1 hs -> has_header p key = has_key_ci (lower key) hs.
+Proof.
+  intros E. unfold has_header. destruct (headers p) as [d|]; cbn [unopt] in E.
+  - rewrite E. apply dict_has_lift.
+  - destruct hs; [reflexivity|discriminate].
+Qed.
+
+Lemma header_view p hs key : U p = map lift1 hs ->
+  header p key = match get_ci (lower key) hs with Some v => Ok v | None => Err KeyError end.
+Proof.
+  intros E. unfold header, get_ci. destruct (headers p) as [d|]; cbn [unopt] in E.
+  - rewrite E, dict_get_lift. destruct (find _ hs) as [[k v]|]; reflexivity.
+  - destruct hs; [reflexivity|discriminate].
+Qed.
+
+Lemma add_header_view p hs name v : U p = map lift1 hs -> U (add_header p name v) = map lift1 (set_field name v hs).
+Proof.
+  intros E. unfold add_header, add_header_d. cbn [headers set_headers unopt].
+  fold (unopt (headers p)). rewrite E. apply dict_set_lift.
+Qed.
+
+Lemma del_header_view p hs key : U p = map lift1 hs -> NoDup (lkeys hs) ->
+  U (del_header p key) = map lift1 (filter (keep_not (lower key)) hs).
+Proof.
+  intros E Hn. unfold del_header. destruct (headers p) as [[|e d]|] eqn:Hh; cbn [unopt] in E.
+  - rewrite Hh. cbn [unopt]. destruct hs; [reflexivity|discriminate].
+  - destruct (dict_has (lower key) (e :: d)) eqn:Hd.
+    + cbn [headers set_headers unopt]. rewrite E. now apply dict_del_lift.
+    + rewrite Hh. cbn [unopt]. rewrite E. f_equal. symmetry. apply filter_keep_all.
+      apply has_key_ci_false. rewrite <- (dict_has_lift (lower key) hs), <- E. exact Hd.
+  - rewrite Hh. cbn [unopt]. destruct hs; [reflexivity|discriminate].
+Qed.
+
+(* the other attributes are untouched by the header operations *)
+Definition same_rest (p q : parser) : Prop :=
+  ty q = ty p /\ state q = state p /\ method q = method p /\ version q = version p /\ path q = path p /\
+  Parser.host q = Parser.host p /\ Parser.port q = Parser.port p /\
+  body q = body p /\ is_chunked_encoded q = is_chunked_encoded p /\ is_https_tunnel q = is_https_tunnel p /\
+  buffer q = buffer p.
+
+Lemma same_rest_refl p : same_rest p p.
+Proof. repeat split. Qed.
+Lemma same_rest_trans p q r : same_rest p q -> same_rest q r -> same_rest p r.
+Proof. unfold same_rest. intuition congruence. Qed.
+Lemma same_rest_add p k v : same_rest p (add_header p k v).
+Proof. repeat split. Qed.
+Lemma same_rest_del p k : same_rest p (del_header p k).
+Proof.
+  unfold del_header. destruct (headers p) as [[|e d]|]; try apply same_rest_refl.
+  destruct (dict_has (lower k) (e :: d)); [repeat split|apply same_rest_refl].
+Qed.
+
+(* ---- drop_hop is the two deletions ---- *)
+Lemma lower_lower l : lower (lower l) = lower l.
+Proof.
+  unfold lower. rewrite map_map. apply map_ext. intros x. unfold lower_byte.
+  destruct (is_upper x) eqn:E; [|now rewrite E].
+  unfold is_upper in *. apply andb_true_iff in E as [E1 E2]. apply N.leb_le in E1, E2.
+  replace (65 <=? x + 32) with true by (symmetry; apply N.leb_le; lia).
+  replace (x + 32 <=? 90) with false by (symmetry; apply N.leb_gt; lia). reflexivity.
+Qed.
+
+Lemma drop_hop_filters hs :
+  filter (keep_not (lower (lower PROXY_CONNECTION))) (filter (keep_not (lower (lower PROXY_AUTHORIZATION))) hs) = drop_hop hs.
+Proof.
+  unfold drop_hop. induction hs as [|[k v] t IH]; [reflexivity|]. cbn [filter].
+  unfold keep_not at 2, is_hop at 1. cbn [fst mem_bytes].
+  change (lower (lower PROXY_AUTHORIZATION)) with PROXY_AUTHORIZATION.
+  change (lower (lower PROXY_CONNECTION)) with PROXY_CONNECTION in *.
+  destruct (bytes_eqb (lower k) PROXY_AUTHORIZATION) eqn:E1; cbn [negb orb].
+  - exact IH.
+  - cbn [filter]. unfold keep_not at 1. cbn [fst]. rewrite orb_false_r.
+    destruct (bytes_eqb (lower k) PROXY_CONNECTION) eqn:E2; cbn [negb]; [exact IH|]. f_equal. exact IH.
+Qed.
+
+Lemma del_headers_view p hs : U p = map lift1 hs -> NoDup (lkeys hs) ->
+  let q := del_headers p [PROXY_AUTHORIZATION; PROXY_CONNECTION] in
+  U q = map lift1 (drop_hop hs) /\ NoDup (lkeys (drop_hop hs)) /\ same_rest p q.
+Proof.
+  intros E Hn q. unfold q, del_headers. cbn [fold_left].
+  set (p1 := del_header p (lower PROXY_AUTHORIZATION)).
+  assert (E1 : U p1 = map lift1 (filter (keep_not (lower (lower PROXY_AUTHORIZATION))) hs)) by now apply del_header_view.
+  assert (N1 : NoDup (lkeys (filter (keep_not (lower (lower PROXY_AUTHORIZATION))) hs))) by now apply NoDup_lkeys_filter.
+  pose proof (del_header_view p1 _ (lower PROXY_CONNECTION) E1 N1) as E2.
+  rewrite drop_hop_filters in E2. split; [exact E2|]. split.
+  - unfold drop_hop. now apply NoDup_lkeys_filter.
+  - eapply same_rest_trans; apply same_rest_del.
+Qed.
+
+(* ---- the dict comprehension of build() ---- *)
+Lemma rebuilt_request_headers_view dis hs : forall acc, NoDup (map fst acc ++ map fst hs) ->
+  rebuilt_request_headers dis None (map lift1 hs) acc =
+  acc ++ filter (fun nv => negb (mem_bytes (lower (fst nv)) dis)) hs.
+Proof.
+  induction hs as [|[k v] t IH]; intros acc H; cbn [map rebuilt_request_headers lift1 fst snd filter]; [now rewrite app_nil_r|].
+  rewrite lower_lower.
+  assert (Hk : ~ In k (dict_keys acc)).
+  { unfold dict_keys. cbn [map fst] in H. intros C. apply NoDup_remove_2 in H. apply H. apply in_or_app. now left. }
+  destruct (mem_bytes (lower k) dis); cbn [negb].
+  - apply IH. cbn [map fst] in H. now apply NoDup_remove_1 in H.
+  - rewrite dict_set_new by exact Hk. rewrite IH.
+    + now rewrite <- app_assoc.
+    + rewrite map_app. cbn [map fst]. rewrite <- app_assoc. exact H.
+Qed.
+
+Lemma rebuilt_of_view dis p hs : U p = map lift1 hs -> NoDup (lkeys hs) ->
+  match headers p with
+  | Some ((_ :: _) as h) => rebuilt_request_headers dis None h []
+  | _ => []
+  end = filter (fun nv => negb (mem_bytes (lower (fst nv)) dis)) hs.
+Proof.
+  intros E Hn. destruct (headers p) as [[|e d]|]; cbn [unopt] in E.
+  - destruct hs; [reflexivity|discriminate].
+  - rewrite E. apply (rebuilt_request_headers_view dis hs []). cbn [map app]. now apply NoDup_names.
+  - destruct hs; [reflexivity|discriminate].
+Qed.
+
+(* ---- _get_body_or_chunks ---- *)
+Lemma get_body_or_chunks_wire p : get_body_or_chunks p = Ok (wire_body p).
+Proof.
+  unfold get_body_or_chunks, wire_body. destruct (body p) as [b|]; [|reflexivity].
+  destruct (is_chunked_encoded p); reflexivity.
+Qed.
+
+(* ===================================================================================== *)
+(* THEOREM 1: what _queue_request_for_upstream emits, for every parser state               *)
+
+Lemma build_view ua dis p hs :
+  is_request (ty p) = true -> truthy (method p) = true -> truthy (version p) = true ->
+  U p = map lift1 hs -> NoDup (lkeys hs) ->
+  build ua p dis false None =
+  Ok (render_forward (or_empty (method p)) (path_or_slash p) (or_empty (version p))
+        (recompute_cl (filter (fun nv => negb (mem_bytes (lower (fst nv)) dis)) hs) (wire_body p))
+        (or_empty (wire_body p))).
+Proof.
+  intros Ht Hm Hv E Hn. unfold build. rewrite Hm, Hv, Ht. cbn [andb negb].
+  rewrite get_body_or_chunks_wire. cbn [bind]. rewrite (rebuilt_of_view dis p hs E Hn).
+  unfold build_http_request, build_http_pkt, pkt_headers, request_headers, render_forward, recompute_cl, path_or_slash.
+  rewrite join_sp3, wire_or_empty. cbn [negb andb].
+  set (fs := filter _ hs). rewrite andb_false_r.
+  destruct (truthy (wire_body p) && negb (has_key_ci TRANSFER_ENCODING fs)).
+  - rewrite dict_set_header_key. unfold bytes_of_N. rewrite <- !app_assoc. reflexivity.
+  - rewrite <- !app_assoc. reflexivity.
+Qed.
+
+Theorem forward_of_parsed_gen cfg tunnel p :
+  is_request (ty p) = true -> truthy (method p) = true -> truthy (version p) = true -> hdr_inv (headers p) ->
+  exists p', queue_request_for_upstream cfg tunnel p = Ok (p', forward_of_parsed cfg tunnel p) /\
+             same_rest p p' /\ hdr_inv (headers p') /\
+             fields_of_parser p' =
+               (if tunnel then drop_hop (fields_of_parser p) else with_via cfg (drop_hop (fields_of_parser p))).
+Proof.
+  intros Ht Hm Hv Hi. destruct (hdr_inv_lift _ Hi) as [E Hn]. fold (fields_of_parser p) in E, Hn.
+  set (hs := fields_of_parser p) in *.
+  unfold queue_request_for_upstream.
+  destruct (del_headers_view p hs E Hn) as (E1 & N1 & S1). cbv zeta in E1, S1.
+  set (r1 := del_headers p [PROXY_AUTHORIZATION; PROXY_CONNECTION]) in *.
+  assert (W1 : wire_body r1 = wire_body p).
+  { unfold wire_body. destruct S1 as (_ & _ & _ & _ & _ & _ & _ & Sb & Sc & _). now rewrite Sb, Sc. }
+  destruct tunnel; cbn [negb bind].
+  - (* no Via on requests read out of a tunnel *)
+    destruct S1 as (St & Sst & Sm & Sv & Sp & Sr).
+    rewrite (build_view (cf_agent cfg) (cf_disable cfg) r1 (drop_hop hs)); try congruence.
+    cbn [bind]. exists r1. split.
+    + unfold forward_of_parsed, forwarded_fields, drop_disabled, path_or_slash. fold hs. rewrite Sm, Sv, Sp, W1. reflexivity.
+    + split; [repeat split; tauto|]. split; [now apply (lift_hdr_inv _ (drop_hop hs))|].
+      unfold fields_of_parser at 1. rewrite E1. apply view_lift.
+  - (* Via *)
+    assert (Ev : exists v, via_value cfg r1 = Ok v /\ set_field H_VIA v (drop_hop hs) = with_via cfg (drop_hop hs)).
+    { unfold via_value, with_via. rewrite (has_header_view r1 _ L_VIA E1), (header_view r1 _ L_VIA E1).
+      change (lower L_VIA) with L_VIA. rewrite has_key_ci_get.
+      destruct (get_ci L_VIA (drop_hop hs)) as [old|]; destruct (cf_via_append cfg); cbn [andb bind];
+        eexists; split; reflexivity. }
+    destruct Ev as (v & -> & Ew). cbn [bind]. unfold add_headers. cbn [fold_left fst snd].
+    set (r2 := add_header r1 H_VIA v).
+    assert (E2 : U r2 = map lift1 (with_via cfg (drop_hop hs))) by (rewrite <- Ew; now apply add_header_view).
+    assert (N2 : NoDup (lkeys (with_via cfg (drop_hop hs)))) by (rewrite <- Ew; now apply NoDup_lkeys_set_field).
+    assert (S2 : same_rest p r2) by (eapply same_rest_trans; [exact S1|apply same_rest_add]).
+    assert (W2 : wire_body r2 = wire_body p) by exact W1.
+    destruct S2 as (St & Sst & Sm & Sv & Sp & Sr).
+    rewrite (build_view (cf_agent cfg) (cf_disable cfg) r2 (with_via cfg (drop_hop hs))); try congruence.
+    cbn [bind]. exists r2. split.
+    + unfold forward_of_parsed, forwarded_fields, drop_disabled, path_or_slash. fold hs. rewrite Sm, Sv, Sp, W2. reflexivity.
+    + split; [repeat split; tauto|]. split; [now apply (lift_hdr_inv _ (with_via cfg (drop_hop hs)))|].
+      unfold fields_of_parser at 1. rewrite E2. apply view_lift.
+Qed.
